@@ -39,6 +39,10 @@ def rfAttr (w : World) : R.RFun := fun x => match x with
   | some v => match (w.attrs v).find? (·.1 == 0) with
     | some p => s!"a{p.2}"
     | none => "a-"
+/-- labels that END in a separator character or a line break (fixed-width padding, "Smith, J., ", a line read from a file) -/
+def rfPad : R.RFun := fun x => match x with
+  | none => "none"
+  | some v => if v % 3 == 0 then s!"v{v}, " else if v % 3 == 1 then s!"v{v} " else s!"v{v}\n\n"
 def rfDup : R.RFun := fun x => match x with | none => "none" | some v => s!"w{v % 2}"   -- not injective
 /-- sort keys of the protocol; key 1 maps many vertices to the same value (ties: `sorted` is stable) -/
 def sortKey (k : Nat) : Option VId → Nat := fun x => (codeOf x * (k + 1)) % (if k == 1 then 3 else 7)
@@ -382,7 +386,7 @@ def step (st : DState) (line : String) : DState × String :=
     | some u, some sort =>
       if !(w.isUni u) then bad else
       -- the state-threading form: every `neighbors(vert)` call of the render goes through the memo
-      match R.basicRenderS w filterTable u (if rf == "repr" then rfRepr else if rf == "dup" then rfDup else if rf == "attr" then rfAttr w else rfTok) (sort.map sortKey) with
+      match R.basicRenderS w filterTable u (if rf == "repr" then rfRepr else if rf == "dup" then rfDup else if rf == "pad" then rfPad else if rf == "attr" then rfAttr w else rfTok) (sort.map sortKey) with
       | (w', .error e) => ({ st with w := w' }, errLine e)
       | (w', .ok none) => ({ st with w := w' }, "ok none")
       | (w', .ok (some str)) => ({ st with w := w' }, "ok " ++ str.replace "\n" "|")
